@@ -10,5 +10,6 @@ rsync -a --exclude .git /repo/ "$tmp/repo/"
 (cd "$tmp/repo" && patch -p1 -s < "$patch") || { echo "PATCH-FAILED $patch"; exit 3; }
 out="$(cd "$here" && VERIF_REPO="$tmp/repo" VERIF_ROOT="$here" VERIF_OUT="$tmp/out" bin/govc check "$prop" quick 2>&1 || true)"
 echo "$out" | grep -E "^VIOLATION|^KNOWN|quick:" | sed -e "s|$tmp/out|.|" | head -8
+echo "$out" | grep -q "^load error\|cannot load" && { echo "$out" | grep "load error" | head -3; echo "BROKEN-MUTANT $prop $(basename "$patch")"; exit 4; }
 echo "$out" | grep -q "^VIOLATION" && { echo "DETECTED $prop $(basename "$patch")"; exit 0; }
 echo "MISSED $prop $(basename "$patch")"; exit 1
